@@ -139,6 +139,9 @@ def run(ctx):
     block_unwrappers_look_at_the_label(ctx, "R01-h")
     synthesised_operators_respect_precedence(ctx, "R01-i")
     token_bindings_are_consumed(ctx, "R01-j", tab)
+    variant_printers_read_the_keyword(ctx, "R01-k")
+    attribute_rewrites_are_consumed(ctx, "R01-l")
+    paren_peelers_look_at_attributes(ctx, "R01-m")
     C = r.rule("R01-c", "no defaulted sub-rewrite: a RewriteResult / Option<String> returned by a Rewrite method is never turned into "
                         "an empty string (unwrap_or_default, unwrap_or(String::new()), unwrap_or_else(|_| String::new()))")
     latent = {e["fn"]: e["reason"] for e in tab.get("defaulted", [])}
@@ -560,3 +563,177 @@ def token_bindings_are_consumed(ctx, rid, tab):
         if key not in used_exc:
             r.note("%s: exception %s / %s in tables/C01.toml is no longer needed" % ((rid,) + key))
     r.floor(rid, n, 20, "named token-bearing bindings")
+
+
+def variant_printers_read_the_keyword(ctx, rid):
+    """R01-k: per printer, not per program: whoever prints an enum variant that carries a modifier keyword reads the keyword"""
+    import c17
+    p, r = ctx.p, ctx.r
+    r.rule(rid, "R01-a asks that every token-bearing field is read by *some* function; this rule asks it of every printer.  For "
+                "every rustc_ast enum variant with a field of token-bearing type (ItemKind::Mod's Safety, ExprKind::AddrOf's and "
+                "PatKind::Ref's Mutability, SelfKind::*, ByRef::Yes, visit::FnKind::Fn's Visibility) and every workspace function "
+                "that destructures the variant and calls a rewriter or pushes text, the function — or a callee within three calls "
+                "that is handed the node (a parameter of the enum's or its parent node's type) — reads that field.  A second "
+                "printer that matches `Mod(_, ident, _)` prints `unsafe mod a;` as `mod a;` while the first keeps R01-a satisfied")
+    tokf = {}
+    for a in p.adts.values():
+        if a["crate"] != "rustc_ast" or a["kind"] != "enum":
+            continue
+        for v in a["variants"]:
+            for fl in v["fields"]:
+                ty = _token_type(fl[1])
+                if ty:
+                    tokf.setdefault((a["id"], v["name"]), []).append((str(fl[0]), ty))
+
+    def printer(f):
+        return any((c17.formatter(c) and "modules::" not in c.name) or c.name.endswith("push_str") for c in f.calls())
+
+    def reads(f, adt, var, field, depth, seen):
+        if f.id in seen:
+            return False
+        seen.add(f.id)
+        for (a, v, fld, mode, bb, line) in f.field_accesses():
+            if a == adt and v == var and str(fld) == field:
+                return True
+        if depth <= 0:
+            return False
+        parent = adt[:-4] if adt.endswith("Kind") else adt
+        for c in f.calls():
+            h = p.fns.get(c.resolved or "")
+            if h is not None and h.crate == f.crate and any(adt in t or parent in t for t in h.locals[1:h.argc + 1]):
+                if reads(h, adt, var, field, depth - 1, seen):
+                    return True
+        return False
+
+    n = 0
+    for f in p.by_crate["rustfmt_nightly"]:
+        acc = {}
+        for (adt, var, field, mode, bb, line) in f.field_accesses():
+            if (adt, var) in tokf:
+                acc.setdefault((adt, var), set()).add(str(field))
+        if not acc or not printer(f):
+            continue
+        for k in sorted(acc):
+            for fld, ty in tokf[k]:
+                n += 1
+                ok = reads(f, k[0], k[1], fld, 3, set())
+                label = "%s prints %s::%s" % (short(f.id), k[0].rsplit("::", 1)[-1], k[1])
+                r.instance(rid, "%s: field %s (%s)" % (label, fld, ty), "ok" if ok else "violation", "%s:%d" % (f.file, f.line))
+                if not ok:
+                    r.violation(rid, "%s without reading its %s (field %s)" % (label, ty, fld),
+                                "the function destructures the variant, produces output, and neither it nor a callee it hands the "
+                                "node to reads the %s field: the keyword is missing from what this printer emits" % ty,
+                                ["%s:%d" % (f.file, f.line)])
+    r.floor(rid, n, 6, "(printer, token-bearing variant field) pairs")
+
+
+_PURE_READS = ("Try>::branch", "Deref>::deref", "::is_empty", "::contains", "::len", "::as_str", "::starts_with", "::ends_with",
+               "::as_ref", "Borrow", "first_line_width", "last_line_width", "is_single_line", "::lines", "::count", "::is_ok",
+               "::is_err", "::is_some", "::is_none")
+_CARRIERS = ("Try>::branch", "Deref>::deref", "::as_str", "::as_ref", "Borrow")
+
+
+def attribute_rewrites_are_consumed(ctx, rid):
+    """R01-l: the text of a node's attributes, once rewritten, is part of what the function returns on every successful path"""
+    from common import rvalue_operands, rvalue_places, bool_branches
+    p, r = ctx.p, ctx.r
+    r.rule(rid, "every call of `<[ast::Attribute] as Rewrite>::rewrite(_result)` outside the trait's own forwarding methods: on "
+                "every path from the call to a non-error return, the rewritten text (followed through `?`, borrows and copies) "
+                "is handed to another function or flows into the return value — merely measuring it (`contains`, `is_empty`, "
+                "`len`, …) is not consumption, except that the path on which `is_empty()` answered true has nothing to emit.  A "
+                "branch that returns only the rest of the node (`self.ty.rewrite_result(..)`) prints `fn(#[a] u8)` as `fn(u8)`")
+    n = 0
+    for f in p.by_crate["rustfmt_nightly"]:
+        for c in f.calls():
+            if "Rewrite for [rustc_ast::Attribute]>::rewrite" not in c.name or not c.dest or c.dest[1]:
+                continue
+            if "Rewrite for [rustc_ast::Attribute]>::rewrite" in f.id:
+                continue
+            n += 1
+            t = {c.dest[0]}
+            changed = True
+            while changed:
+                changed = False
+                for bb, i, st in f.stmts():
+                    if st[0] == "=" and st[1][0] not in t and st[1][0] != 0:
+                        ops = [op[1][0] for op in rvalue_operands(st[2]) if op[0] != "k"] + [pl[0] for pl in rvalue_places(st[2])]
+                        if any(o in t for o in ops):
+                            t.add(st[1][0])
+                            changed = True
+                for d in f.calls():
+                    if d.dest and d.dest[0] not in t and any(a[0] != "k" and a[1][0] in t for a in d.args) \
+                            and any(x in d.name for x in _CARRIERS):
+                        t.add(d.dest[0])
+                        changed = True
+            cons, empty_edges = set(), set()
+            for d in f.calls():
+                if d is c or not any(a[0] != "k" and a[1][0] in t for a in d.args):
+                    continue
+                if d.name.endswith("::is_empty") and d.dest and not d.dest[1]:
+                    for sw, tt, ff in bool_branches(f, d.dest[0]):
+                        if tt is not None:
+                            empty_edges.add((sw, tt))
+                if not any(x in d.name for x in _PURE_READS):
+                    cons.add(d.bb)
+            for bb, i, st in f.stmts():
+                if st[0] == "=" and st[1][0] == 0:
+                    ops = [op[1][0] for op in rvalue_operands(st[2]) if op[0] != "k"] + [pl[0] for pl in rvalue_places(st[2])]
+                    if any(o in t for o in ops):
+                        cons.add(bb)
+            errb = {d.bb for d in f.calls() if (d.declared or "") == "std::ops::FromResidual::from_residual"} | {
+                bb for bb, i, st in f.stmts() if st[0] == "=" and st[1][0] == 0 and st[2][0] == "agg" and isinstance(st[2][1], list)
+                and st[2][1][0] == "adt" and st[2][1][2] in ("Err", "None")}
+            reach = f.reachable(c.bb, avoid_blocks=cons | errb, avoid_edges=empty_edges)
+            bad = any(b in reach for b in f.returns())
+            label = "%s rewrites the attributes of its node" % short(f.id)
+            r.instance(rid, label, "violation" if bad else "ok", "%s:%d" % (f.file, c.line),
+                       "%d consuming sites" % len(cons))
+            if bad:
+                r.violation(rid, "%s returns successfully on a path that never uses the rewritten attributes" % short(f.id),
+                            "the attribute text is computed and a successful return is reachable on which it is handed to nobody "
+                            "and is not part of the result: the attributes of the node are missing from that output",
+                            ["%s:%d" % (f.file, c.line)])
+    r.floor(rid, n, 10, "attribute-list rewrites")
+
+
+def paren_peelers_look_at_attributes(ctx, rid):
+    """R01-m: an expression is replaced by the operand of its parentheses only after looking at its attributes"""
+    from common import rvalue_operands, rvalue_places
+    p, r = ctx.p, ctx.r
+    r.rule(rid, "a function that peels parentheses in place — a variable of type `&ast::Expr` that is re-assigned from field 0 of "
+                "its own `ExprKind::Paren` — reads `Expr::attrs`: the peeled expression may carry attributes (`(#[a] (x))`) which "
+                "the operand does not")
+    n = 0
+    for f in p.by_crate["rustfmt_nightly"]:
+        fa = list(f.field_accesses())
+        if not any(a and a.endswith("ast::ExprKind") and v == "Paren" and str(fl) == "0" for (a, v, fl, m, bb, ln) in fa):
+            continue
+        peeled = []
+        for l, ty in enumerate(f.locals):
+            if "rustc_ast::Expr" not in ty or not ty.lstrip().startswith("&") or "ExprKind" in ty:
+                continue
+            ndefs = len(f.defs().get(l, [])) + (1 if 1 <= l <= f.argc else 0)
+            if ndefs < 2:
+                continue
+            for bb, kind, st in f.defs().get(l, []):
+                if kind != "assign":
+                    continue
+                srcs = {op[1][0] for op in rvalue_operands(st[2]) if op[0] != "k"} | {pl[0] for pl in rvalue_places(st[2])}
+                for src in srcs:
+                    d = f.derived_from(src) if src != l else {"locals": {l}, "fields": []}
+                    own = [(e[2], e[3], e[4]) for op in rvalue_operands(st[2]) if op[0] != "k" for e in op[1][1]
+                           if isinstance(e, list) and e[0] == "f"] + [(e[2], e[3], e[4]) for pl in rvalue_places(st[2]) for e in pl[1]
+                                                                      if isinstance(e, list) and e[0] == "f"]
+                    if l in d["locals"] and any(x[0] and x[0].endswith("ast::ExprKind") and x[1] == "Paren" and str(x[2]) == "0"
+                                                for x in list(d["fields"]) + own):
+                        peeled.append(l)
+        if not peeled:
+            continue
+        n += 1
+        ok = any(a and a.endswith("rustc_ast::Expr") and str(fl) == "attrs" for (a, v, fl, m, bb, ln) in fa)
+        r.instance(rid, "%s peels nested parentheses" % short(f.id), "ok" if ok else "violation", "%s:%d" % (f.file, f.line),
+                   "reads Expr::attrs: %s" % ok)
+        if not ok:
+            r.violation(rid, "%s peels parentheses without looking at the attributes of the peeled expression" % short(f.id),
+                        "`(#[a] (x))` is printed as `(x)`", ["%s:%d" % (f.file, f.line)])
+    r.floor(rid, n, 1, "in-place parenthesis peelers")
